@@ -55,6 +55,7 @@ Definition op_widths (o : opcode) : list nat :=
   | OpNativeFunctionPointer => [4]
   | OpSetGlobalVar | OpReadGlobalVar => [4]  (* VariableId *)
   | OpSetLocalVar | OpReadLocalVar | OpSetUpvalue | OpReadUpvalue => [4]
+  | OpCloseUpvalue => [4]                    (* u32 index of the local going out of scope (d723a2c) *)
   | OpGoto | OpGotoIfTrue | OpGotoIfFalse => [4]       (* i32 *)
   | OpBeginForEach | OpForEach => [4; 4; 4; 4; 4]
   | OpFunctionPointer | OpClosure => [4; 4]  (* Handle, arity *)
@@ -66,7 +67,9 @@ Definition op_widths (o : opcode) : list nat :=
    the table generated from the source text (CompilerGen.gen_span_table) in C10Check.
    The pinned tree gave NativeFunctionPointer a span of 6 (it added the opcode byte twice) while
    the VM reads one u32 (5 bytes in all): repaired in /repo (d967380).  [op_span] below is what the VM
-   decodes; the two tables now agree everywhere (CompilerProofs.span_table_vs_vm). *)
+   decodes; the two tables now agree everywhere (CompilerProofs.span_table_vs_vm).
+   d723a2c: CloseUpvalue carries a u32 operand (the index of the local that goes out of scope),
+   span 1 -> 5. *)
 Definition span_table : list (opcode * nat) :=
   [(OpAdd, 1); (OpSub, 1); (OpMul, 1); (OpDiv, 1); (OpCallNative, 5); (OpScalarInt, 9);
    (OpScalarFloat, 9); (OpScalarNil, 1); (OpStringLiteral, 5); (OpCopyLast, 1); (OpExit, 1);
@@ -76,7 +79,7 @@ Definition span_table : list (opcode * nat) :=
    (OpGoto, 5); (OpGotoIfTrue, 5); (OpGotoIfFalse, 5); (OpInitTable, 1); (OpGetProperty, 1);
    (OpSetProperty, 1); (OpLen, 1); (OpBeginForEach, 21); (OpForEach, 21); (OpFunctionPointer, 9);
    (OpNativeFunctionPointer, 5); (OpNthRow, 1); (OpAppendTable, 1); (OpPopTable, 1); (OpClosure, 9);
-   (OpSetUpvalue, 5); (OpReadUpvalue, 5); (OpRegisterUpvalue, 3); (OpCloseUpvalue, 1)].
+   (OpSetUpvalue, 5); (OpReadUpvalue, 5); (OpRegisterUpvalue, 3); (OpCloseUpvalue, 5)].
 
 Definition op_span (o : opcode) : nat := S (fold_right Nat.add O (op_widths o)).
 
@@ -107,7 +110,7 @@ Inductive instr :=
 | ISetUpvalue (i : N)
 | IReadUpvalue (i : N)
 | IRegisterUpvalue (index is_local : N)
-| ICloseUpvalue.
+| ICloseUpvalue (i : N).
 
 Definition instr_op (i : instr) : opcode :=
   match i with
@@ -125,7 +128,7 @@ Definition instr_op (i : instr) : opcode :=
   | IFunctionPointer _ _ => OpFunctionPointer | INativeFunctionPointer _ => OpNativeFunctionPointer
   | INthRow => OpNthRow | IAppendTable => OpAppendTable | IPopTable => OpPopTable
   | IClosure _ _ => OpClosure | ISetUpvalue _ => OpSetUpvalue | IReadUpvalue _ => OpReadUpvalue
-  | IRegisterUpvalue _ _ => OpRegisterUpvalue | ICloseUpvalue => OpCloseUpvalue
+  | IRegisterUpvalue _ _ => OpRegisterUpvalue | ICloseUpvalue _ => OpCloseUpvalue
   end.
 
 (* raw (unsigned) operand values in emission order *)
@@ -136,7 +139,7 @@ Definition instr_args (i : instr) : list N :=
   | IScalarFloat b => [b]
   | IStringLiteral o | INativeFunctionPointer o => [o]
   | ISetGlobalVar x | IReadGlobalVar x | ISetLocalVar x | IReadLocalVar x
-  | ISetUpvalue x | IReadUpvalue x => [x]
+  | ISetUpvalue x | IReadUpvalue x | ICloseUpvalue x => [x]
   | IGoto p | IGotoIfTrue p | IGotoIfFalse p => [i32_to_u32 p]
   | IBeginForEach a b c d e | IForEach a b c d e => [a; b; c; d; e]
   | IFunctionPointer h a | IClosure h a => [h; a]
@@ -176,7 +179,7 @@ Definition instr_of (o : opcode) (args : list N) : option instr :=
   | OpClosure, [h; a] => Some (IClosure h a)
   | OpSetUpvalue, [x] => Some (ISetUpvalue x) | OpReadUpvalue, [x] => Some (IReadUpvalue x)
   | OpRegisterUpvalue, [x; l] => Some (IRegisterUpvalue x l)
-  | OpCloseUpvalue, [] => Some ICloseUpvalue
+  | OpCloseUpvalue, [x] => Some (ICloseUpvalue x)
   | _, _ => None
   end.
 
